@@ -12,6 +12,10 @@ Monitored, fail closed:
   * the or-chains of `AttributeDocString.help_string` and `FieldWrapper.help` -> HELP_STRING_CHAIN / HELP_CHAIN, and
     the statements around the latter (explicit help= first, "" -> None).
 
+  * three repaired places (the cache aliasing in get_attribute_docstring, the upward comment walk, the class-docstring
+    entry of a class that does not declare the field): the shape before AND after each repair is recognised and a
+    boolean fact FIX_ALIAS / FIX_WALK / FIX_ENTRY says which one the source has.
+
 Output: coq/Gen/FactsDoc.v (imports Model.DocScan and instantiates it)."""
 from __future__ import annotations
 
@@ -264,9 +268,42 @@ EXPECT_HELP = (
 )
 
 
-def _check(tree, name, consts_ok, cls=None):
+# --- repaired places: the shape before the repair and the shape after it are both recognised; which one is
+# present is emitted as a boolean fact (FIX_WALK / FIX_ENTRY / FIX_ALIAS) that the model takes as an argument ----
+_WALK_OLD = "        start_line -= 1\n"
+_WALK_NEW = ("        if not (_is_empty(line_str) or _is_comment(line_str)):\n"
+             "            break\n"
+             "        start_line -= 1\n")
+_ENTRY_OLD = "    return None\n"
+_ENTRY_NEW = ("    if desc_from_cls_docstring:\n"
+              "        return AttributeDocString(desc_from_cls_docstring=desc_from_cls_docstring)\n"
+              "    return None\n")
+_ALIAS_OLD = "            created_docstring = attribute_docstring\n"
+_ALIAS_NEW = ["            created_docstring = replace(attribute_docstring)\n",
+              "            created_docstring = dataclasses.replace(attribute_docstring)\n"]
+
+
+def _repaired(name):
+    """the post-repair shape of EXPECT[name]"""
+    base = EXPECT[name]
+    if name == "_get_comment_ending_at_line":
+        assert base.count(_WALK_OLD) == 1
+        return base.replace(_WALK_OLD, _WALK_NEW)
+    if name == "_get_attribute_docstring":
+        assert base.endswith(_ENTRY_OLD)
+        return base[: -len(_ENTRY_OLD)] + _ENTRY_NEW
+    return None
+
+
+def _check(tree, name, consts_ok, cls=None, repairable=False):
+    """-> consts_ok(consts), or (that, repaired: bool) for a repairable place"""
     fn = find_def(tree, name, cls=cls)
     text, consts = skeleton(fn)
+    if repairable and text == _repaired(name):
+        r = consts_ok(consts)
+        if r is None:
+            raise Unrecognised(f"{name}: literals {consts!r} not in the expected pattern")
+        return r, True
     if text != EXPECT[name]:
         import difflib
         d = [l for l in difflib.unified_diff(EXPECT[name].splitlines(), text.splitlines(), lineterm="", n=0)
@@ -275,7 +312,7 @@ def _check(tree, name, consts_ok, cls=None):
     r = consts_ok(consts)
     if r is None:
         raise Unrecognised(f"{name}: literals {consts!r} not in the expected pattern")
-    return r
+    return (r, False) if repairable else r
 
 
 def _one_char(s, what):
@@ -324,9 +361,11 @@ def emit(repo: str) -> str:
     if TS != "'''" or TD != '"""':
         # the proofs are about three equal quote characters; any other token is a different scanner
         raise Unrecognised(f"triple-quote tokens changed: {TS!r} {TD!r}")
-    _check(t, "_get_comment_ending_at_line",
-           lambda c: True if len(c) == 3 and sorted(c[:2]) == sorted([TS, TD]) and c[2] == "\n" else None)
-    _check(t, "_get_attribute_docstring", lambda c: True if c == ["", "", "\n"] else None)
+    _, fix_walk = _check(t, "_get_comment_ending_at_line",
+                         lambda c: True if len(c) == 3 and sorted(c[:2]) == sorted([TS, TD]) and c[2] == "\n" else None,
+                         repairable=True)
+    _, fix_entry = _check(t, "_get_attribute_docstring", lambda c: True if c == ["", "", "\n"] else None,
+                          repairable=True)
 
     # --- get_attribute_docstring: accumulation rule ----------------------------------------------
     g = copy.deepcopy(find_def(t, "get_attribute_docstring"))
@@ -351,7 +390,23 @@ def emit(repo: str) -> str:
         raise Unrecognised("a part is accumulated twice")
     ifs[0].orelse = [ast.Expr(ast.Name(id="ACCUMULATE", ctx=ast.Load()))]
     text, consts = skeleton(g)
-    if text != EXPECT_GET or consts:
+    fix_alias = None
+    if text == EXPECT_GET:
+        fix_alias = False
+    for alt in _ALIAS_NEW:
+        if text == EXPECT_GET.replace(_ALIAS_OLD, alt):
+            fix_alias = True
+            # `replace` must be dataclasses.replace
+            imported = any(isinstance(n, ast.ImportFrom) and n.module == "dataclasses" and n.level == 0
+                           and any(a.name == "replace" and a.asname is None for a in n.names) for n in t.body)
+            whole = any(isinstance(n, ast.Import) and any(a.name == "dataclasses" and a.asname is None for a in n.names)
+                        for n in t.body)
+            if not (whole if "dataclasses." in alt else imported):
+                raise Unrecognised("get_attribute_docstring: `replace` is not dataclasses.replace")
+            rebound = [n for n in ast.walk(t) if isinstance(n, (ast.FunctionDef, ast.ClassDef)) and n.name in ("replace", "dataclasses")]
+            if rebound:
+                raise Unrecognised("get_attribute_docstring: `replace`/`dataclasses` is re-defined in the module")
+    if fix_alias is None or consts:
         raise Unrecognised("get_attribute_docstring: shape changed")
     d = kw_defaults(find_def(t, "get_attribute_docstring"))
     if unparse(d.get("accumulate_from_bases", ast.Constant(None))) != "True":
@@ -404,14 +459,18 @@ def emit(repo: str) -> str:
         f"Definition ACC_PARTS : list part := {plist(acc)}.\n"
         f"Definition HELP_CHAIN : list part := {plist(help_chain)}.\n"
         f"Definition HELP_STRING_CHAIN : list part := {plist(hs_chain)}.\n"
+        "(* repairs present in the source (false = the shape before the repair) *)\n"
+        f"Definition FIX_WALK : bool := {'true' if fix_walk else 'false'}.   (* comment walk stops at code lines *)\n"
+        f"Definition FIX_ENTRY : bool := {'true' if fix_entry else 'false'}.  (* class-docstring entry of a non-declaring class kept *)\n"
+        f"Definition FIX_ALIAS : bool := {'true' if fix_alias else 'false'}.  (* the cached AttributeDocString is copied, not aliased *)\n"
         "(* the model instantiated with the regenerated facts *)\n"
         "Definition contains_def_gen := contains_def HASH COLON EQUALS.\n"
         "Definition view_gen := view HASH COLON EQUALS TRIPLE_S TRIPLE_D.\n"
-        "Definition scan_lines_gen := scan_lines HASH COLON EQUALS TRIPLE_S TRIPLE_D.\n"
-        "Definition scan_class_gen := scan_class HASH COLON EQUALS TRIPLE_S TRIPLE_D.\n"
+        "Definition scan_lines_gen := scan_lines HASH COLON EQUALS TRIPLE_S TRIPLE_D FIX_WALK.\n"
+        "Definition scan_class_gen := scan_class HASH COLON EQUALS TRIPLE_S TRIPLE_D FIX_WALK FIX_ENTRY.\n"
         "Definition merge_gen := merge ACC_PARTS.\n"
         "Definition acc_pure_gen := acc_pure ACC_PARTS.\n"
-        "Definition get_doc_gen := get_doc ACC_PARTS.\n"
-        "Definition run_queries_gen := run_queries ACC_PARTS.\n"
+        "Definition get_doc_gen := get_doc ACC_PARTS FIX_ALIAS.\n"
+        "Definition run_queries_gen := run_queries ACC_PARTS FIX_ALIAS.\n"
         "Definition help_gen := help_of HELP_CHAIN.\n"
     )
